@@ -129,6 +129,7 @@ type c05Case struct {
 	Status  int    `json:"status,omitempty"`        // response status (0: 200)
 	Group   string `json:"group,omitempty"`         // concurrent-streams group: after its first chunk every stream of the group waits until all GroupN streams have had theirs observed
 	GroupN  int    `json:"group_size,omitempty"`
+	NoCT    bool   `json:"no_content_type,omitempty"` // the backend declares no Content-Type at all
 	Stall   bool   `json:"stalled_upload,omitempty"` // a large free-running response whose upload the proxy does not read until released (its own progress is not judged)
 	Class   string `json:"class"`
 }
@@ -247,6 +248,7 @@ func C05(r *core.Run) {
 			w.Line(fmt.Sprintf("HTTP/1.1 %d Status %d", c.Status, c.Status))
 		}
 		switch {
+		case c.NoCT:
 		case c.HTML:
 			w.Field("Content-Type", "text/html; charset=utf-8")
 		case c.SSE:
@@ -502,6 +504,10 @@ func C05(r *core.Run) {
 		}
 		if i%5 == 4 {
 			c.Wrapped = true
+			c.NoCT = i%10 == 9
+		}
+		if i%15 == 0 {
+			c.NoCT = true
 		}
 		c.Status = []int{200, 200, 200, 201, 206, 404, 500, 502, 503}[rng.Intn(9)]
 		if i == 2 || i == 7 || (!r.Quick() && i%40 == 2) {
@@ -514,7 +520,14 @@ func C05(r *core.Run) {
 			}
 			cnt, maxSz = len(c.Chunks), 8
 		}
-		c.Class = fmt.Sprintf("n=%d|max=%s|mix=%v|pause=%d|sse=%v|cl=%v|shim-html=%v|wrapped=%v|pace=%d|status=%d", cnt, sizeClass(maxSz), szClass >= len(sizes), c.PauseMs, c.SSE, c.CL, c.HTML, c.Wrapped, c.PaceMs, c.Status)
+		c.Class = fmt.Sprintf("n=%d|max=%s|mix=%v|pause=%d|sse=%v|cl=%v|shim-html=%v|wrapped=%v|pace=%d|status=%d|no-ct=%v", cnt, sizeClass(maxSz), szClass >= len(sizes), c.PauseMs, c.SSE, c.CL, c.HTML, c.Wrapped, c.PaceMs, c.Status, c.NoCT)
+		cases = append(cases, c)
+	}
+	// fixed cases: a 200 response that declares no Content-Type and starts with small pieces, fetched as a page navigation
+	// through the banner-wrapped agent and as a plain request through the default one
+	for k, wrapped := range []bool{true, false, true} {
+		c := c05Case{ID: fmt.Sprintf("s%dnoct%d", r.Seed, k), Chunks: []int{100, 1, 300, 4097, 20}[:3+k], Wrapped: wrapped, NoCT: true, Status: 200, PauseMs: k * 10}
+		c.Class = fmt.Sprintf("fixed|no-content-type|wrapped=%v|n=%d", wrapped, len(c.Chunks))
 		cases = append(cases, c)
 	}
 	run := func(cs []c05Case, T time.Duration, par int) {
